@@ -66,6 +66,11 @@ type Ctx struct {
 	cg      *callgraph.Graph
 	allFns  map[*ssa.Function]bool
 	declIdx map[*types.Func]*ast.FuncDecl
+
+	// identifiers by pinned name (alias.go)
+	funcByCanon map[string]*types.Func
+	typeByCanon map[string]*types.TypeName
+	Aliases     []string // renamed identifiers recognised by shape, "pkg.current = pinned name"
 }
 
 // Load type-checks ./... of cfg.Repo and builds SSA for it. Any load or type
@@ -128,6 +133,9 @@ func Load(cfg Config) (*Ctx, error) {
 			return nil, fmt.Errorf("library package %q not loaded", l)
 		}
 	}
+	if err := c.buildAliases(); err != nil {
+		return nil, err
+	}
 	prog.Build()
 	c.allFns = ssautil.AllFunctions(prog)
 	for fn := range c.allFns {
@@ -142,6 +150,9 @@ func Load(cfg Config) (*Ctx, error) {
 				if fd, ok := d.(*ast.FuncDecl); ok {
 					if o, ok := p.TypesInfo.Defs[fd.Name].(*types.Func); ok {
 						c.declIdx[o] = fd
+						declCanonMu.Lock()
+						declCanon[fd] = funcKey2(o)
+						declCanonMu.Unlock()
 					}
 				}
 			}
@@ -210,29 +221,12 @@ func (c *Ctx) Pkg(rel string) *packages.Package { return c.ByRel[rel] }
 // Func looks up a package-level function ("Do") or a method ("Plan.collectInto",
 // pointer or value receiver) in library package rel. nil if absent.
 func (c *Ctx) Func(rel, name string) *ssa.Function {
-	sp := c.SSA[rel]
-	if sp == nil {
-		return nil
-	}
-	if i := strings.Index(name, "."); i >= 0 {
-		tn, mn := name[:i], name[i+1:]
-		t := sp.Type(tn)
-		if t == nil {
-			return nil
+	if o := c.funcByCanon[rel+"|"+name]; o != nil {
+		if fn := c.Prog.FuncValue(o); fn != nil {
+			return fn
 		}
-		named := t.Type()
-		for _, recv := range []types.Type{types.NewPointer(named), named} {
-			ms := c.Prog.MethodSets.MethodSet(recv)
-			if sel := ms.Lookup(sp.Pkg, mn); sel != nil {
-				if fn := c.Prog.MethodValue(sel); fn != nil && fn.Synthetic == "" {
-					return fn
-				}
-			}
-		}
-		// try exported lookup with nil package
-		return nil
 	}
-	return sp.Func(name)
+	return nil
 }
 
 // Decl returns the syntax of a named function or method.
@@ -251,16 +245,8 @@ func (c *Ctx) DeclOf(rel, name string) *ast.FuncDecl { return c.Decl(c.Func(rel,
 
 // Named returns a named type of a library package.
 func (c *Ctx) Named(rel, name string) *types.Named {
-	p := c.ByRel[rel]
-	if p == nil {
-		return nil
-	}
-	o := p.Types.Scope().Lookup(name)
-	if o == nil {
-		return nil
-	}
-	tn, ok := o.(*types.TypeName)
-	if !ok {
+	tn := c.typeByCanon[rel+"|"+name]
+	if tn == nil {
 		return nil
 	}
 	n, _ := tn.Type().(*types.Named)
@@ -272,6 +258,12 @@ func (c *Ctx) Object(rel, name string) types.Object {
 	p := c.ByRel[rel]
 	if p == nil {
 		return nil
+	}
+	if tn := c.typeByCanon[rel+"|"+name]; tn != nil {
+		return tn
+	}
+	if f := c.funcByCanon[rel+"|"+name]; f != nil {
+		return f
 	}
 	return p.Types.Scope().Lookup(name)
 }
@@ -351,7 +343,7 @@ func TypeName(t types.Type) string {
 		t = p.Elem()
 	}
 	if n, ok := t.(*types.Named); ok {
-		return n.Obj().Name()
+		return CanonName(n.Obj())
 	}
 	return t.String()
 }
